@@ -759,3 +759,699 @@ def _escape_lemmas(ctx, v):
     if root:
         ctx.ob("ESC-sink", "%s:ESC-sink" % v.name, not bad_sink,
                "the sink flows only into send receivers, captures, share's list and Arc::ptr_eq" if not bad_sink else "; ".join(sorted(set(bad_sink))[:3]), v.loc(v.op.id))
+
+
+# ============================================================================= shared: terminal sites
+
+def terminal_sink_sends(v):
+    """Sends of Error/Terminate (or of the incoming message in an E/T arm) to the sink / sink list: [(effect, body, arms)]."""
+    out = []
+    for e, b in v.sends():
+        c = v.cls_of(e)
+        if c[0] not in ("SINK", "SINKLIST"):
+            continue
+        if e.variant in ("Error", "Terminate"):
+            out.append((e, b, site_arms(v, b, e.site)))
+        elif e.variant == "INCOMING":
+            arms = [a for a in site_arms(v, b, e.site) if a in ("Error", "Terminate")]
+            if arms:
+                out.append((e, b, arms))
+    return out
+
+
+def flag_guard(path, idx, want):
+    """GRD-flag: decisions `atomic bool load == want` taken before idx: returns list of cell keys."""
+    out = []
+    for (i, a, ev) in guards_before(path, idx):
+        if a[0] == "bool" and a[1][0] == "aload" and a[2] == want:
+            out.append(cell_key(a[1][1]))
+    return out
+
+
+def first_visible(v, path):
+    for i, e in ev_effects(path):
+        if e.tracing or not effect_visible(v.P, e):
+            continue
+        if e.kind == "panic":
+            continue
+        return i, e
+    return None, None
+
+
+def path_terminals(v, bid, variant, path):
+    return [s for s in send_sig(v, bid, variant, path) if s[0] in ("SINK", "SINKLIST") and (s[1] in ("Error", "Terminate") or (s[1] == "INCOMING" and variant in ("Error", "Terminate")))]
+
+
+def lemma_nothing_after_terminal(ctx, v):
+    """Path-local part of C02(b)/(a): no path of any body delivers anything to the sink after a terminal message,
+    and no path delivers two terminals."""
+    for b in v.op.bodies:
+        body = v.P.bodies[b]
+        arms = VARIANTS if body.is_handler() else [None]
+        bad = []
+        any_term = False
+        for var in arms:
+            for p in v.arm(b, var):
+                sig = [s for s in send_sig(v, b, var, p) if s[0] in ("SINK", "SINKLIST")]
+                terms = [s for s in sig if s[1] in ("Error", "Terminate") or (s[1] == "INCOMING" and var in ("Error", "Terminate"))]
+                if terms:
+                    any_term = True
+                if v.family == "share" and var in ("Error", "Terminate"):
+                    continue   # fan-out of one terminal to the list: one per element (REL-fanout)
+                if len(terms) > 1:
+                    bad.append("two terminal messages on one path (%s)" % VSHORT.get(var, "-"))
+                if terms:
+                    after = [s for s in sig if s[4] > terms[0][4]]
+                    if after:
+                        bad.append("%s sent after the terminal message (%s)" % (after[0][1], VSHORT.get(var, "-")))
+        if any_term:
+            ctx.ob("ORD-terminal-last", "%s:%s:ORD-terminal-last" % (v.name, v.label(b)), not bad,
+                   "on every path the terminal message is the last thing the sink receives" if not bad else "; ".join(sorted(set(bad))[:3]), v.loc(b))
+
+
+# ============================================================================= C02
+
+@prop("C02", "other",
+      "Structural proof of (a) at most one Error/Terminate per sink and (b) nothing after it, for sequential histories under axioms "
+      "A1-A6: the complete list of terminal-to-sink send sites is computed (census; an unclassifiable site fails closed) and each "
+      "site is discharged by its once-argument - REL-1:1 relays of the single upstream's terminal (map, filter, scan, skip, take, "
+      "concat E, flatten), take's self-completion (GRD-cmp post(taken)==max on the RMW result, GRD-flag end==false, end stored "
+      "before both sends, upstream Terminate before the sink's), merge T (GRD-once end_count==n, n = member count), merge E "
+      "(over-flag stored first, siblings disposed before the relay), combine (GRD-once n_end==0, init N), concat's completion in "
+      "`next` (GRD-cmp i==n, thunk called only from the member's Terminate arm and once from ROOT), flatten's two completion sites "
+      "(each guarded by the other level's cell being None, the complementary branch clearing its own cell), from_iter (guarded by "
+      "res_done, loop left at once), share (REL-fanout of the single upstream terminal, list cleared), interval's refusal. "
+      "ORD-terminal-last: on no path of any body does a send to the sink follow a terminal. Recorded exception: share's snapshot "
+      "fan-out (KF-5).",
+      axioms=["A1", "A2", "A3", "A5", "A6"])
+def C02(ctx, model, tier, models):
+    census_operators(ctx, model)
+    for v in views(model):
+        if v.cls == "sink":
+            continue
+        lemma_nothing_after_terminal(ctx, v)
+        tb = v.talkback_cells()
+        for e, b, arms in terminal_sink_sends(v):
+            role = v.op.roles.get(b)
+            lab = v.label(b)
+            key = lambda what: "%s:%s:%s" % (v.name, lab, what)
+            handled = False
+            # --- relays of the upstream's own terminal
+            if role in ("UP", "UP_INNER") and set(arms) <= {"Error", "Terminate"}:
+                for var in arms:
+                    if v.family == "share":
+                        _share_fanout(ctx, v, b, var, "C02")
+                        _share_clear_after(ctx, v, b, var)
+                        # KF-5: the fan-out iterates a snapshot of the list without a per-iteration liveness test
+                        _share_fanout_live(ctx, v, b, var)
+                        handled = True
+                        continue
+                    if v.family in ("merge", "combine") and not (v.family == "merge" and var == "Error"):
+                        ok_all, n = True, 0
+                        for p in v.arm(b, var):
+                            for s in path_terminals(v, b, var, p):
+                                n += 1
+                                g = grd_once(v, p, s[4])
+                                if g is None:
+                                    ok_all = False
+                                    continue
+                                members = len(v.by_role("UP"))
+                                if v.family == "merge":
+                                    good = g["step"] == 1 and g["init"] == 0 and g["post_offset"] == 0 and g["bound"] is not None and _is_member_count(v, g["bound"])
+                                else:
+                                    good = g["step"] == -1 and g["init"] == members and g["post_offset"] == 0 and g["bound"] is None
+                                if not (good and g["uniform"] and g["scope"] == "SUBSCRIPTION" and g["adjacent"]):
+                                    ok_all = False
+                        ctx.ob("GRD-once", key("%s:GRD-once:complete" % VSHORT[var]) if v.family == "merge" else "%s:%s:%s:GRD-once:complete" % (v.name, lab, VSHORT[var]),
+                               ok_all and n >= 1, "completion is guarded by the counter reaching the member count exactly (monotone unit-step RMW)" if ok_all else
+                               "completion is not guarded by an exact once-guard on the completion counter", e.loc)
+                        handled = True
+                        continue
+                    if v.family == "merge" and var == "Error":
+                        lemma_rel_one(ctx, v, b, "Error", "SINK", "Error", "in", what="error-relayed")
+                        _ord_flag_first(ctx, v, b, "Error", "merge-over-flag")
+                        _merge_sibling_disposal(ctx, v, b)
+                        handled = True
+                        continue
+                    if v.family == "flatten" and var == "Terminate":
+                        _flatten_completion(ctx, v, b, tb)
+                        handled = True
+                        continue
+                    if v.family == "flatten" and var == "Error":
+                        lemma_rel_one(ctx, v, b, "Error", "SINK", "Error", "in", what="error-relayed")
+                        _flatten_cross_disposal(ctx, v, b, "Error")
+                        handled = True
+                        continue
+                    # single-upstream relays
+                    lemma_rel_one(ctx, v, b, var, "SINK", var, "in" if var == "Error" else "none", what="terminal-relayed")
+                    handled = True
+            # --- take's self-completion inside the Data arm
+            elif role == "UP" and arms == ["Data"] and e.variant == "Terminate":
+                _take_completion(ctx, v, b, e)
+                handled = True
+            elif role == "THUNK" and v.family == "concat":
+                _concat_completion(ctx, v, b, e)
+                handled = True
+            elif role == "THUNK" and v.family == "from_iter":
+                _from_iter_completion(ctx, v, b, e)
+                handled = True
+            elif role == "ROOT" and v.family == "interval" and e.variant == "Error":
+                # REL-xor (C01) shows refusal and greeting are exclusive; the refusal path returns at once
+                probs = []
+                for p in v.arm(b, "Handshake"):
+                    for s in path_terminals(v, b, "Handshake", p):
+                        later = [x for x in send_sig(v, b, "Handshake", p) if x[4] > s[4]]
+                        if later:
+                            probs.append("send after refusal")
+                ctx.ob("REL-xor", key("H:REL-xor:refusal-final"), not probs, "the refusal is the only message of its path", e.loc)
+                handled = True
+            if not handled:
+                ctx.ob("CEN-terminal", key("CEN-terminal:%s-in-%s" % (VSHORT.get(e.variant, e.variant), "".join(VSHORT.get(a, "-") for a in arms))), False,
+                       "terminal message to the sink at a site that is in no once-class (census, fail closed)", e.loc)
+            else:
+                ctx.ob("CEN-terminal", key("CEN-terminal:classified"), True, "terminal site classified", e.loc)
+    ctx.floor("CEN-terminal", 24)
+    ctx.floor("GRD-once", 1 + 2 * 78)
+
+
+def _ord_flag_first(ctx, v, bid, variant, what):
+    """ORD-flag-relay: the first visible effect of the arm is a store of `true` into an atomic flag, before every send."""
+    probs = []
+    for p in complete(v.arm(bid, variant)):
+        i, e = first_visible(v, p)
+        if e is None or not (e.kind == "atomic" and e.op == "store" and e.operand is not None and e.operand[0] == "const" and e.operand[3] == 1):
+            probs.append("first effect is %s" % (e.kind if e else "nothing"))
+    ctx.ob("ORD-flag-relay", v.key(bid, variant, "ORD-flag-relay", what), not probs,
+           "the over/end flag is set before anything is sent" if not probs else "; ".join(sorted(set(probs))[:2]), v.loc(bid))
+
+
+def _take_completion(ctx, v, b, e):
+    """take: Terminate to the sink inside UP.D: once-guard on the increment's own result, end flag, order."""
+    probs = []
+    n = 0
+    for p in v.arm(b, "Data"):
+        for s in send_sig(v, b, "Data", p):
+            if s[3].site != e.site:
+                continue
+            n += 1
+            idx = s[4]
+            # (1) guarded by post(taken) == max, on the value the RMW itself returned
+            g = None
+            for (i, a, ev) in guards_before(p, idx):
+                if a[0] == "cmp" and a[3] == "==":
+                    for (L, R, sign) in ((a[1], a[2], 1), (a[2], a[1], -1)):
+                        ct = counter_term(L)
+                        if ct and ct[0] == "pre":
+                            g = (ct, R, a[4] * sign)
+            if g is None:
+                probs.append("completion not guarded by an equality on the increment's result")
+            else:
+                (ct, R, c) = g
+                step = 1 if ct[3] in ("fetch_add", "fetch_update") else -1
+                is_param = R is not None and R[0] == "param" and not v.P.bodies[R[1]].is_handler()
+                if not (is_param and c + step == 0):
+                    probs.append("completion guard is not post(counter) == max")
+            # (2) end == false
+            fl = flag_guard(p, idx, False)
+            if not fl:
+                probs.append("completion does not test the end flag")
+            # (3) end := true before both sends, upstream Terminate before the sink's
+            st = [i for i, x in ev_effects(p) if x.kind == "atomic" and x.op == "store" and fl and cell_key(x.cell) in fl and x.operand[3] == 1]
+            ups = [x for x in send_sig(v, b, "Data", p) if x[0] == "UPTB" and x[1] == "Terminate"]
+            if not st or not ups or not (st[0] < ups[0][4] < idx):
+                probs.append("order is not: end.store(true); upstream Terminate; sink Terminate")
+            # (4) after the data send of the same delivery
+            ds = [x for x in send_sig(v, b, "Data", p) if x[0] == "SINK" and x[1] == "Data"]
+            if not ds or not ds[0][4] < idx:
+                probs.append("completion not after the nth datum")
+    ctx.ob("GRD-once", v.key(b, "Data", "GRD-once", "self-completion"), not probs and n >= 1,
+           "self-completion: post(taken)==max on the RMW result, end==false, end stored first, upstream told before the sink" if not probs else "; ".join(sorted(set(probs))[:3]), e.loc)
+
+
+def _concat_completion(ctx, v, b, e):
+    probs = []
+    for p in v.arm(b, None):
+        for s in send_sig(v, b, None, p):
+            if s[3].site != e.site:
+                continue
+            ok = False
+            for (i, a, ev) in guards_before(p, s[4]):
+                if a[0] == "cmp" and a[3] == "==" and a[4] == 0:
+                    ct = counter_term(a[1])
+                    if ct and ct[0] == "cur" and a[2] is not None and _is_member_count(v, a[2]):
+                        ok = True
+            if not ok:
+                probs.append("completion not guarded by index == member count")
+            later = [x for x in send_sig(v, b, None, p) if x[4] > s[4]]
+            if later:
+                probs.append("send after completion")
+    callers = thunk_callers(v, b)
+    good = bool(callers) and all((v.op.roles.get(cb) == "UP" and cv == "Terminate") or (v.op.roles.get(cb) == "ROOT" and cv == "Handshake") for cb, cv, _ in callers)
+    if not good:
+        probs.append("`next` is called from %s" % sorted({"%s.%s" % (v.label(cb), VSHORT.get(cv, "-")) for cb, cv, _ in callers}))
+    ctx.ob("GRD-cmp", v.key(b, None, "GRD-cmp", "completion-after-last-member"), not probs,
+           "completion guarded by index == n; thunk called only from the member's Terminate arm and once from ROOT" if not probs else "; ".join(sorted(set(probs))[:3]), e.loc)
+
+
+def _from_iter_completion(ctx, v, b, e):
+    probs = []
+    for p in v.arm(b, None):
+        for s in send_sig(v, b, None, p):
+            if s[3].site != e.site:
+                continue
+            if not flag_guard(p, s[4], True):
+                probs.append("Terminate not guarded by the exhaustion flag")
+            later = [x for x in send_sig(v, b, None, p) if x[4] > s[4]]
+            if later:
+                probs.append("send after Terminate in the same activation")
+            its = [i for i, x in ev_effects(p) if x.kind == "iternext" and i > s[4]]
+            if its:
+                probs.append("iterator advanced after Terminate")
+    # DOWN.P calls the loop only under exhaustion-flag == false
+    fl_cells = set()
+    for p in v.arm(b, None):
+        for s in send_sig(v, b, None, p):
+            if s[3].site == e.site:
+                fl_cells |= set(flag_guard(p, s[4], True))
+    for (cb, cv, ce) in thunk_callers(v, b):
+        for p in v.arm(cb, cv, inline=0):
+            for i, x in ev_effects(p):
+                if x.kind == "thunk" and x.site == ce.site:
+                    if not (set(flag_guard(p, i, False)) & fl_cells):
+                        probs.append("loop called without testing the exhaustion flag")
+    ctx.ob("GRD-flag", v.key(b, None, "GRD-flag", "completion-once"), not probs,
+           "Terminate guarded by res_done, nothing after it; the loop is entered only while res_done is false" if not probs else "; ".join(sorted(set(probs))[:3]), e.loc)
+
+
+def _flatten_completion(ctx, v, b, tb):
+    """flatten UP.T / UP_INNER.T: Send(SINK,T) iff the *other* level's cell is None; else clear the own cell."""
+    own = {k for k, lst in tb.items() if any(hh == b for hh, _ in lst)}
+    other = {k for k in tb if k not in own}
+    probs = []
+    kinds = set()
+    for p in returning(v.arm(b, "Terminate")):
+        sig = send_sig(v, b, "Terminate", p)
+        ts = [s for s in sig if s[0] == "SINK" and s[1] == "Terminate"]
+        none_other = False
+        for (i, a, ev) in guards_before(p, len(p.events)):
+            ce = a[1] if a[0] in ("opt", "discr") else None
+            if ce is not None and ce[0] == "cellload" and base_key(ce[1]) in other:
+                if (a[0] == "opt" and a[2] == "none") or (a[0] == "discr" and a[2] != 1):
+                    none_other = True
+        if ts:
+            kinds.add("complete")
+            if not none_other:
+                probs.append("completes without the other level being gone")
+        else:
+            kinds.add("wait")
+            if none_other:
+                probs.append("other level gone but no completion")
+            cl = [e for i, e in ev_effects(p) if e.kind == "cell" and e.op == "store" and base_key(e.cell) in own and e.value[0] == "agg" and e.value[2] == "Option::None"]
+            if not cl:
+                probs.append("own cell not cleared on the waiting branch")
+    ok = not probs and kinds == {"complete", "wait"}
+    ctx.ob("REL-xor", v.key(b, "Terminate", "REL-xor", "complete-iff-other-level-gone"), ok,
+           "completes exactly when the other level's cell is None, otherwise clears its own cell" if ok else "; ".join(sorted(set(probs))[:3]) or str(kinds), v.loc(b))
+
+
+def _share_clear_after(ctx, v, b, var):
+    probs = []
+    for p in returning(v.arm(b, var)):
+        st = [i for i, e in ev_effects(p) if e.kind == "cell" and e.op == "store"]
+        if not st:
+            probs.append("sink list not cleared after the terminal")
+    ctx.ob("REL-fanout", v.key(b, var, "REL-fanout", "list-cleared"), not probs, "the sink list is cleared on every path of the terminal arm" if not probs else probs[0], v.loc(b))
+
+
+def _share_fanout_live(ctx, v, b, var):
+    """REL-bcast-live for share: a per-iteration liveness test (is this sink still in the current list?) before each send."""
+    live = True
+    for p in v.arm(b, var):
+        for s in send_sig(v, b, var, p):
+            if s[0] != "SINKLIST":
+                continue
+            # a fresh load of the list (or a flag) between the iteration step and the send
+            it = [i for i, ev in ev_branches(p) if i < s[4] and ev[1][0] == "discr" and ev[1][1][0] == "call" and ev[1][1][2] == "std::iter::Iterator::next"]
+            last_it = it[-1] if it else -1
+            fresh = [e for i, e in ev_effects(p) if last_it < i < s[4] and ((e.kind == "cell" and e.op in ("load", "load_full")) or (e.kind == "atomic" and e.op == "load"))]
+            if not fresh:
+                live = False
+    ctx.ob("REL-fanout", "share:UP.DET:REL-fanout:snapshot-without-liveness", live,
+           "fan-out re-checks liveness per iteration" if live else
+           "fan-out iterates a snapshot of the sink list: a sink detached (or everyone terminated) by a nested reaction still receives this message", v.loc(b))
+
+
+# ============================================================================= shared: DOWN relays
+
+def upstream_targets(v):
+    """The things a DOWN handler must reach to dispose every live upstream: talkback cells (by base key) and,
+    for cell-less relays (map, scan), the direct Handshake payload of the UP handler."""
+    tb = v.talkback_cells()
+    direct = []
+    for h in v.by_role("UP", "UP_INNER"):
+        stored = any(any(hh == h for hh, _ in lst) for lst in tb.values())
+        if not stored:
+            direct.append(h)
+    return tb, direct
+
+
+def lemma_down_relay(ctx, v, d, variant, want_variants, lemma="REL-bcast", what="all-upstreams"):
+    """DOWN.<variant>: on every returning path every upstream talkback (cell or direct) is sent one of want_variants;
+    cells through a Some-guard or expect.  merge: a loop over the whole cell vector; combine: every field once."""
+    tb, direct = upstream_targets(v)
+    probs = []
+    paths = v.arm(d, variant)
+    if v.family == "merge":
+        # loop over all elements of the cell vector, each send guarded by its own load being Some
+        n = 0
+        for p in paths:
+            for s in send_sig(v, d, variant, p):
+                if s[0] != "UPTB":
+                    continue
+                n += 1
+                if s[1] not in want_variants:
+                    probs.append("relays %s" % s[1])
+                ld = recv_load(s[3])
+                if ld is None or not opt_guarded(p, s[4], ld):
+                    probs.append("send not guarded by the member cell being Some")
+                else:
+                    base, sel = strip_cell(ld[1])
+                    if not (sel and sel[0] == "idx" and sel[1][0] == "iterelem" and base_key(ld[1]) in tb):
+                        probs.append("receiver is not an element of an iteration over the whole member vector")
+        if n == 0:
+            probs.append("no relay")
+    else:
+        for p in returning(paths):
+            sig = [s for s in send_sig(v, d, variant, p) if s[0] == "UPTB"]
+            for k in tb:
+                # one cell base may hold several member cells (combine: fields)
+                sels = set()
+                for (e2, b2) in v.cell_effects(k, kinds=("cell",)):
+                    if e2.op == "store" and e2.value[0] == "agg" and e2.value[2] == "Option::Some":
+                        sels.add(cell_key(e2.cell)[1])
+                for sel in sels:
+                    hit = [s for s in sig if recv_load(s[3]) is not None and cell_key(recv_load(s[3])[1]) == (k, sel)]
+                    tested_none = any((a[0] in ("discr", "opt")) and a[1][0] == "cellload" and cell_key(a[1][1]) == (k, sel) and
+                                      ((a[0] == "discr" and a[2] != 1) or (a[0] == "opt" and a[2] == "none")) for (_, a, _) in guards_before(p, len(p.events)))
+                    if len(hit) == 1 and hit[0][1] in want_variants:
+                        continue
+                    if not hit and tested_none:
+                        continue
+                    probs.append("%s%s: %s" % (v.op.cells[k].name, "" if sel is None else "." + str(sel[1]), "sent %s" % [h[1] for h in hit] if hit else "not relayed to"))
+            for h in direct:
+                hit = [s for s in sig if s[5][1] == ("direct", h)]
+                if not (len(hit) == 1 and hit[0][1] in want_variants):
+                    probs.append("direct talkback of %s: %s" % (v.label(h), [x[1] for x in hit]))
+    ok = not probs
+    return ctx.ob(lemma, v.key(d, variant, lemma, what), ok,
+                  "%s reaches every upstream talkback" % "/".join(VSHORT[w] for w in want_variants) if ok else "; ".join(sorted(set(probs))[:3]), v.loc(d))
+
+
+# ============================================================================= C03
+
+@prop("C03", "other",
+      "Structural proof, for sequential histories under A3/A5/A6, that after the sink sent Terminate/Error the operator starts no "
+      "delivery to it. PL-down: no talkback (DOWN) handler sends anything to the sink in any arm (from_iter only through its loop "
+      "thunk, in the Pull arm). REL-bcast / REL-1:1: DOWN's Error and Terminate arms relay a terminal to every live upstream "
+      "talkback (every cell Some-guarded or expect-guarded, merge over the whole vector, combine over every index), so that by A3 "
+      "no upstream arm runs again. Self-initiated sends are each behind a flag that DOWN.E|T writes first (ORD-flag-relay) and the "
+      "sender re-reads: take's completion (end), from_iter's loop (completed, per iteration and at DOWN entry), interval's task "
+      "(one flag test after each sleep, no await between test and send), merge's subscribe loop and late-greeter arm (ended), share "
+      "(the sink is removed from the list before anything else). Recorded exception: share's snapshot fan-out (KF-5).",
+      axioms=["A3", "A5", "A6", "A8 (interval)"])
+def C03(ctx, model, tier, models):
+    census_operators(ctx, model)
+    for v in views(model):
+        if v.cls == "sink":
+            continue
+        downs = v.by_role("DOWN")
+        ctx.ob("PL-down", "%s:PL-down:exists" % v.name, len(downs) == 1, "%d talkback handler(s)" % len(downs), v.loc(v.op.id))
+        for d in downs:
+            # PL-down
+            bad = []
+            for var in VARIANTS:
+                for p in v.arm(d, var):
+                    for s in send_sig(v, d, var, p):
+                        if s[0] in ("SINK", "SINKLIST"):
+                            inside_thunk = _inside_thunk(p, s[4])
+                            if not (v.family == "from_iter" and var == "Pull" and inside_thunk):
+                                bad.append("%s to the sink in DOWN.%s" % (s[1], VSHORT[var]))
+            ctx.ob("PL-down", v.key(d, None, "PL-down"), not bad,
+                   "the talkback never calls the sink (from_iter: only via its loop in the Pull arm)" if not bad else "; ".join(sorted(set(bad))[:3]), v.loc(d))
+            # relays / flags in the terminal arms
+            for var in ("Error", "Terminate"):
+                if v.family in ("from_iter", "interval"):
+                    _flag_only_arm(ctx, v, d, var)
+                elif v.family == "share":
+                    _share_detach(ctx, v, d, var)
+                else:
+                    want = ("Error", "Terminate")
+                    lemma_down_relay(ctx, v, d, var, want)
+        # self-initiated sends and their flags
+        if v.family == "take":
+            d = downs[0]
+            for var in ("Error", "Terminate"):
+                _ord_flag_first(ctx, v, d, var, "end-before-relay")
+            for e, b, arms in terminal_sink_sends(v):
+                if arms == ["Data"]:
+                    _take_completion(ctx, v, b, e)
+        if v.family == "merge":
+            d = downs[0]
+            for var in ("Error", "Terminate"):
+                _ord_flag_first(ctx, v, d, var, "ended-before-relay")
+            _merge_subscribe_loop(ctx, v)
+            _merge_late_greeter(ctx, v)
+        if v.family == "from_iter":
+            _from_iter_disposal(ctx, v)
+        if v.family == "interval":
+            _interval_cycle(ctx, v)
+        if v.family == "share":
+            for h in v.by_role("UP"):
+                for var in ("Data", "Error", "Terminate"):
+                    _share_fanout_live_c03(ctx, v, h, var)
+    ctx.floor("PL-down", 12)
+    ctx.floor("REL-bcast", 2 * (8 + 12))
+
+
+def _inside_thunk(path, idx):
+    depth = 0
+    for ev in path.events[:idx]:
+        if ev[0] == "enter":
+            depth += 1
+        elif ev[0] == "leave":
+            depth -= 1
+    return depth > 0
+
+
+def _flag_only_arm(ctx, v, d, var):
+    """from_iter / interval DOWN.E|T: the arm stores `true` into a flag and sends nothing."""
+    probs = []
+    n = 0
+    for p in returning(v.arm(d, var)):
+        sends = [e for i, e in ev_effects(p) if e.kind == "send"]
+        if sends:
+            probs.append("arm sends")
+        st = [e for i, e in ev_effects(p) if e.kind == "atomic" and e.op == "store" and e.operand[3] == 1]
+        already = flag_guard(p, len(p.events), True)
+        if not st and not already:
+            probs.append("a path neither sets the disposal flag nor found it set")
+        n += 1
+    ctx.ob("ORD-flag-relay", v.key(d, var, "ORD-flag-relay", "disposal-flag-set"), not probs and n,
+           "disposal sets the flag (or finds it set) and sends nothing" if not probs else "; ".join(sorted(set(probs))), v.loc(d))
+
+
+def _share_detach(ctx, v, d, var):
+    """share DOWN.E|T: the sink is removed from the list (position by Arc::ptr_eq of this very sink, rcu removal)
+    before anything is sent; upstream is told iff the list is then empty."""
+    probs = []
+    kinds = set()
+    for p in returning(v.arm(d, var)):
+        effs = ev_effects(p)
+        rcu = [i for i, e in effs if e.kind == "cell" and e.op == "rcu"]
+        sends = [(i, e) for i, e in effs if e.kind == "send"]
+        pos = [a for (_, a, _) in guards_before(p, len(p.events)) if a[0] == "discr" and a[1][0] == "call" and a[1][2].endswith("::position")]
+        if not pos:
+            probs.append("position of the sink not looked up")
+            continue
+        found = pos[0][2] == 1
+        if found and not rcu:
+            probs.append("sink found but not removed")
+        if sends and rcu and sends[0][0] < rcu[0]:
+            probs.append("upstream told before the sink was removed")
+        empt = [a for (_, a, _) in guards_before(p, len(p.events)) if a[0] == "bool" and a[1][0] == "call" and a[1][2].endswith("::is_empty")]
+        if not empt:
+            probs.append("emptiness of the list not tested")
+            continue
+        if empt[-1][2]:
+            kinds.add("last")
+            if [(v.cls_of(e)[0], e.variant) for _, e in sends] != [("UPTB", "Terminate")]:
+                probs.append("last detach does not send exactly one Terminate upstream")
+        else:
+            kinds.add("others-remain")
+            if sends:
+                probs.append("upstream told although sinks remain")
+    ok = not probs and kinds == {"last", "others-remain"}
+    ctx.ob("REL-xor", v.key(d, var, "REL-xor", "detach-then-maybe-dispose"), ok,
+           "detach removes the sink first and disposes upstream exactly when the list became empty" if ok else "; ".join(sorted(set(probs))[:3]) or str(kinds), v.loc(d))
+
+
+def _merge_subscribe_loop(ctx, v):
+    """merge ROOT.H: every subscribe is preceded, in the same iteration, by a test of the over-flag being false."""
+    r = v.root
+    probs = []
+    n = 0
+    for p in v.arm(r, "Handshake"):
+        last_iter = -1
+        for i, ev in enumerate(p.events):
+            if ev[0] == "br" and ev[1][0] == "discr" and ev[1][1][0] == "call" and ev[1][1][2] == "std::iter::Iterator::next":
+                last_iter = i
+            if ev[0] == "eff" and ev[1].kind == "send" and ev[1].variant == "Handshake":
+                n += 1
+                fl = [j for j, a, _ in guards_before(p, i) if j > last_iter and a[0] == "bool" and a[1][0] == "aload" and a[2] is False]
+                if not fl:
+                    probs.append("subscribe without testing the over-flag in the same iteration")
+    ctx.ob("GRD-flag", v.key(r, "Handshake", "GRD-flag", "subscribe-only-while-live"), not probs and n,
+           "each member is subscribed only after re-reading the over-flag" if not probs else probs[0], v.loc(r))
+
+
+def _merge_late_greeter(ctx, v):
+    """merge UP.H (FIX-3): if the over-flag is set the new talkback is sent Terminate at once and nothing else happens."""
+    for h in v.by_role("UP"):
+        probs = []
+        kinds = set()
+        for p in returning(v.arm(h, "Handshake")):
+            effs = ev_effects(p)
+            over = [a for (_, a, _) in guards_before(p, len(p.events)) if a[0] == "bool" and a[1][0] == "aload"]
+            if not over:
+                probs.append("a path of the member's Handshake arm does not test the over-flag")
+                continue
+            first_test = None
+            for i, a, ev in guards_before(p, len(p.events)):
+                if a[0] == "bool" and a[1][0] == "aload":
+                    first_test = i
+                    break
+            before = [e for i, e in effs if i < first_test and effect_visible(v.P, e) and not (e.kind == "atomic" and e.op == "load") and not e.tracing]
+            if before:
+                probs.append("state is touched before the over-flag is tested")
+            if over[0][2] is True:
+                kinds.add("over")
+                vis = [(e.kind, e.get("variant")) for i, e in effs if i > first_test and effect_visible(v.P, e) and not e.tracing and not (e.kind == "atomic" and e.op == "load")]
+                sends = [e for i, e in effs if e.kind == "send"]
+                if not (len(sends) == 1 and sends[0].variant == "Terminate" and v.cls_of(sends[0]) == ("UPTB", ("direct", h)) and len(vis) == 1):
+                    probs.append("late greeter is not simply sent Terminate (effects: %s)" % vis)
+            else:
+                kinds.add("live")
+        ok = not probs and kinds == {"over", "live"}
+        ctx.ob("GRD-flag", v.key(h, "Handshake", "GRD-flag", "late-greeter-disposed"), ok,
+               "a member that greets after the output is over is sent Terminate at once and not registered" if ok else "; ".join(sorted(set(probs))[:3]) or str(kinds), v.loc(h))
+
+
+def _from_iter_disposal(ctx, v):
+    d = v.by_role("DOWN")[0]
+    # DOWN returns first thing under `completed`
+    probs = []
+    for var in VARIANTS:
+        for p in complete(v.arm(d, var, inline=0)):
+            i, e = first_visible(v, p)
+            if e is None or not (e.kind == "atomic" and e.op == "load"):
+                probs.append("DOWN.%s does not start by reading the disposal flag" % VSHORT[var])
+                continue
+            g = [a for (_, a, _) in guards_before(p, len(p.events))]
+            if not g or g[0][0] != "bool":
+                probs.append("DOWN.%s does not branch on the disposal flag first" % VSHORT[var])
+                continue
+            if g[0][2] is True:
+                rest = [x for j, x in ev_effects(p) if j > i and effect_visible(v.P, x) and not x.tracing]
+                if rest or p.end != "return":
+                    probs.append("DOWN.%s does something although disposed" % VSHORT[var])
+    ctx.ob("GRD-flag", v.key(d, None, "GRD-flag", "disposed-talkback-inert"), not probs,
+           "a disposed talkback returns at once" if not probs else "; ".join(sorted(set(probs))[:3]), v.loc(d))
+    # the loop re-reads the flag before every iteration's sends
+    for t in v.by_role("THUNK"):
+        sends_in_thunk = [e for e in v.all_effects(t) if e.kind == "send"]
+        if not sends_in_thunk:
+            continue
+        probs = []
+        # which cell does DOWN.E|T set?
+        flag_cells = set()
+        for var in ("Error", "Terminate"):
+            for p in v.arm(d, var):
+                for i, e in ev_effects(p):
+                    if e.kind == "atomic" and e.op == "store" and e.operand[3] == 1:
+                        flag_cells.add(cell_key(e.cell))
+        for p in v.arm(t, None):
+            last_send = -1
+            for i, ev in enumerate(p.events):
+                if ev[0] == "eff" and ev[1].kind == "send":
+                    fl = [j for j, a, _ in guards_before(p, i) if j > last_send and a[0] == "bool" and a[1][0] == "aload" and cell_key(a[1][1]) in flag_cells and a[2] is False]
+                    if not fl:
+                        probs.append("a send of the loop is not preceded by a fresh test of the disposal flag")
+                    last_send = i
+        ctx.ob("GRD-flag", v.key(t, None, "GRD-flag", "loop-rereads-disposal-flag"), not probs and flag_cells,
+               "every send of the loop follows a fresh read of `completed` == false" if not probs else probs[0], v.loc(t))
+
+
+def _interval_cycle(ctx, v):
+    """ORD-sleep-check-send on the task's CFG: between task entry / a previous send and the next send there is exactly one
+    sleep, then (after the await completed) one test of the disposal flag being false, and no yield between test and send."""
+    tasks = v.by_role("TASK")
+    d = v.by_role("DOWN")[0]
+    flag_cells = set()
+    for var in ("Error", "Terminate"):
+        for p in v.arm(d, var):
+            for i, e in ev_effects(p):
+                if e.kind == "atomic" and e.op == "store" and e.operand[3] == 1:
+                    flag_cells.add(cell_key(e.cell))
+    for t in tasks:
+        probs = []
+        n = 0
+        for p in v.arm(t, None):
+            last = -1
+            for i, ev in enumerate(p.events):
+                if ev[0] == "eff" and ev[1].kind == "send":
+                    n += 1
+                    seg = p.events[last + 1:i]
+                    sleeps = [x for x in seg if x[0] == "eff" and x[1].kind == "sleep"]
+                    if len(sleeps) != 1:
+                        probs.append("%d sleeps between consecutive sends" % len(sleeps))
+                    # flag test after the last yield / poll of the segment
+                    idx_last_wait = max([j for j, x in enumerate(seg) if x[0] == "yield" or (x[0] == "eff" and x[1].kind == "poll")] + [-1])
+                    tests = [j for j, x in enumerate(seg) if x[0] == "br" and norm_pred(x[1], x[2])[0] == "bool" and norm_pred(x[1], x[2])[1][0] == "aload"
+                             and cell_key(norm_pred(x[1], x[2])[1][1]) in flag_cells and norm_pred(x[1], x[2])[2] is False]
+                    if not tests or tests[-1] < idx_last_wait:
+                        probs.append("disposal flag not tested between the completed sleep and the send")
+                    if sleeps:
+                        per = sleeps[0][1].period
+                        if not (per[0] == "param" and not v.P.bodies[per[1]].is_handler()):
+                            probs.append("sleep duration is not the factory's period")
+                    last = i
+        # after a positive flag test the task ends without sending
+        for p in v.arm(t, None):
+            for i, a, ev in guards_before(p, len(p.events)):
+                if a[0] == "bool" and a[1][0] == "aload" and cell_key(a[1][1]) in flag_cells and a[2] is True:
+                    later = [x for x in p.events[i:] if x[0] == "eff" and x[1].kind in ("send", "sleep")]
+                    if later:
+                        probs.append("task keeps going after seeing the disposal flag")
+        ctx.ob("ORD-sleep-check-send", v.key(t, None, "ORD-sleep-check-send"), not probs and n and flag_cells,
+               "every emission is preceded by exactly one sleep(period) and a fresh disposal test with no await in between" if not probs else "; ".join(sorted(set(probs))[:3]), v.loc(t))
+
+
+def _share_fanout_live_c03(ctx, v, h, var):
+    if var in ("Error", "Terminate"):
+        return
+    live = True
+    n = 0
+    for p in v.arm(h, var):
+        for s in send_sig(v, h, var, p):
+            if s[0] != "SINKLIST":
+                continue
+            n += 1
+            it = [i for i, ev in ev_branches(p) if i < s[4] and ev[1][0] == "discr" and ev[1][1][0] == "call" and ev[1][1][2] == "std::iter::Iterator::next"]
+            last_it = it[-1] if it else -1
+            fresh = [e for i, e in ev_effects(p) if last_it < i < s[4] and ((e.kind == "cell" and e.op in ("load", "load_full")) or (e.kind == "atomic" and e.op == "load"))]
+            if not fresh:
+                live = False
+    if n:
+        ctx.ob("REL-fanout", "share:UP.DET:REL-fanout:snapshot-without-liveness", live,
+               "fan-out re-checks liveness per iteration" if live else
+               "fan-out iterates a snapshot of the sink list: a sink that detached during this fan-out still receives the datum", v.loc(h))
